@@ -235,6 +235,30 @@ def _det_specs():
 _det_specs()
 
 
+# one series as an [n, 1] column array (a table column kept 2-D), the other
+# 1-D: answered or refused, the column keeps its shape
+def _column_specs():
+    table = {"bias": metrics.bias, "nse": metrics.nse, "kge": metrics.kge,
+             "corr": lambda o, s: metrics.corr(o, s)}
+    for nm, f in table.items():
+        for which in ("sim", "obs"):
+            def make(d, f=f, which=which):
+                o = d.obs + 5
+                s_ = d.sim + 5
+                if which == "sim":
+                    return [d.V(o, containers=ND),
+                            np.ascontiguousarray(s_[:, None])], f
+                big = np.zeros((d.n, 3))
+                big[:, 1] = o
+                return [big[:, 1:2], d.V(s_, containers=ND)], f
+            SPECS[f"metrics.{nm}_column_{which}"] = (make, False)
+            GROUPS.setdefault("metrics", []).append(
+                f"metrics.{nm}_column_{which}")
+
+
+_column_specs()
+
+
 @spec("metrics.ad_test", "metrics")
 def _(d):
     u = (np.argsort(np.argsort(d.obs)) + 0.5) / d.n
